@@ -467,6 +467,14 @@ def api_scenario(rng):
                 prog.append("yield %d" % rng.randint(1, 20))
         else:
             odd = 0.22 if wild else 0.06
+            if not unbounded and not trig and rng.random() < 0.07:
+                # a client that never calls stop: it polls the state until the finite acquisition is over, then goes on -- typically by
+                # configuring the next acquisition (also with other devices) straight away
+                prog.append("waitidle")
+                running = False
+                if rng.random() < 0.8:
+                    emit_cfg(False)
+                continue
             if r < odd / 2:
                 prog.append("start")                               # start while running
                 running = False                                    # it fails and aborts the acquisition
@@ -579,6 +587,7 @@ def oracle(prog, lines, meta):
     switched = [False]            # some configure-while-running asked for other devices than the running ones
     reconf_acqs = []
     cam_rejected = set()          # cameras stopped by a rejected camera_set of a configure-while-running
+    saw_idle = [False]            # the runtime has reported a state other than Running since the last acquire_start
 
     def reconf_key():
         return "protocol-broken-after-configure-while-running-" + ("other-devices" if switched[0] else "same-devices")
@@ -638,11 +647,17 @@ def oracle(prog, lines, meta):
 
     for l in lines:
         w = l.split()
+        if l.startswith("A start call"):
+            saw_idle[0] = False
+        if l.startswith("A state ->") and w[3] != "Running":
+            saw_idle[0] = True            # the client has been told that the acquisition is over: what it does next is not "while running"
         if l.startswith("A configure call"):
             # a configure issued while a device of a running acquisition is running: everything that follows on those devices
-            # (and on the devices this call opens) is classified as a consequence of it
+            # (and on the devices this call opens) is classified as a consequence of it -- unless the runtime itself has reported that
+            # it is no longer Running since the last start (then the client is entitled to configure, and any device still running is the
+            # runtime's fault, judged at full strength)
             in_call = "configure"
-            for s in list(cur):
+            for s in ([] if saw_idle[0] else list(cur)):
                 a = cur[s]
                 keys = [k for k, d in dev.items() if d["open"] and not d["closed"] and
                         (k.startswith("cam%d#" % a.camidx) or k.startswith("sto%d#" % a.stoidx))]
